@@ -85,6 +85,11 @@ func (ie *ImageExtractor) Extract(node *html.Node) webdoc.Element {
 		}
 
 		figCaption := domutil.GetFirstElementByTagName(node, "figcaption")
+		if figCaption != nil && !ie.isVisibleInside(figCaption, node) {
+			// A caption inside a non-rendered part of the figure is not a caption.
+			figCaption = nil
+		}
+
 		if figCaption == nil {
 			figCaption = ie.createFigCaption(node)
 		} else {
@@ -289,6 +294,17 @@ func (ie *ImageExtractor) imageSrcIsValid(src string) bool {
 		return false
 	}
 
+	return true
+}
+
+// isVisibleInside reports whether none of the ancestors of node up to
+// (excluding) root is hidden.
+func (ie *ImageExtractor) isVisibleInside(node, root *html.Node) bool {
+	for parent := node.Parent; parent != nil && parent != root; parent = parent.Parent {
+		if parent.Type == html.ElementNode && !domutil.IsProbablyVisible(parent) {
+			return false
+		}
+	}
 	return true
 }
 
